@@ -141,7 +141,22 @@ func checkC15(ctx *Ctx) {
 				ctx.Res.Note(fmt.Sprintf("iterative expansion differs from the single-pass spec (outside the theorem's domain): pattern %q -> %s vs spec %s", c.Pattern, quote(real), quote(spec)))
 			}
 		}
-		// the property on the real result: no unreplaced placeholder of the original pattern, no empty value
+		// the property on the real result, whatever the model says: a parameter or tag placeholder without a
+		// (non-empty) value must stop the workflow
+		if strings.HasPrefix(real, "OK\t") {
+			for _, m := range strings.Split(w.Ask("placeholders", c.Pattern), US) {
+				f := strings.Split(m, RS)
+				if len(f) < 3 {
+					continue
+				}
+				name := strings.Split(f[2], "|")[0]
+				if (f[1] == "p" && c.Params[name] == "") || (f[1] == "t" && c.Tags[name] == "") {
+					ctx.Res.Violate(Violation{What: fmt.Sprintf("a command was formed (%s) although the value of {%s:%s} is missing or empty", quote(real), f[1], name), Class: "c15.missing-value-accepted", Witness: c})
+					break
+				}
+			}
+		}
+		// ... and no unreplaced placeholder of the original pattern
 		if strings.HasPrefix(real, "OK\t") && i%3 != 0 {
 			for _, m := range strings.Split(w.Ask("placeholders", c.Pattern), US) {
 				if m == "" {
